@@ -68,7 +68,7 @@ EXTRA = {'Parameter': [], 'Boolean': [], 'Number': ['bounds', 'inclusive_bounds'
          'Integer': ['bounds', 'inclusive_bounds', 'softbounds', 'step'], 'String': ['regex'], 'Tuple': ['length'],
          'List': ['bounds'], 'Magnitude': ['bounds', 'inclusive_bounds', 'softbounds', 'step'], 'NumericTuple': ['length'],
          'Range': ['length', 'bounds', 'inclusive_bounds', 'softbounds', 'step'], 'Color': ['allow_named'],
-         'ClassSelector': ['class_', 'is_instance'], 'Dict': ['is_instance'], 'Selector': ['objects', 'check_on_set'],
+         'ClassSelector': ['class_', 'is_instance'], 'Dict': ['is_instance'], 'Selector': ['objects', 'check_on_set', 'names'],
          'Choice': ['choices']}
 TYPE_MOVES = {'Parameter': ['Number', 'String', 'Boolean', 'Tuple', 'List', 'Integer', 'Color', 'ClassSelector', 'Range', 'Dict', 'Selector', 'Choice'],
               'Choice': ['Parameter', 'Choice', 'String'],
@@ -99,7 +99,7 @@ VALUES = {
     ('Selector', 'default'): [1, 2, 'a', None, 5],
     ('Choice', 'default'): ['red', 'GREEN', 'blue', None, 'Blue'],
     'choices': [('red', 'green'), ('blue',), ('Red', 'BLUE', 'x')],
-    'objects': [[1, 2, 3], [2, 3], ['a', 'b', 1], [], [5]],
+    'objects': [[1, 2, 3], [2, 3], ['a', 'b', 1], [], [5], {'one': 1, 'two': 2, 'three': 3}, {'x': 'a', 'y': 5}],
     'check_on_set': [True, False],
     'class_': [int, str, (int, str), (int, float), tuple],
     'is_instance': [True, False],
@@ -130,6 +130,8 @@ def gen_explicit(rng, tname):
     for s in slots_of(tname):
         if (tname == 'Dict' and s == 'is_instance') or (tname == 'Range' and s == 'length'):
             continue        # (a Dict of classes is not a meaningful declaration; the slot can still be inherited)
+        if s == 'names':
+            continue        # (not an argument: the names come with the objects when these are given as a dictionary)
         heavy = s in ('default', 'bounds', 'inclusive_bounds', 'regex', 'length', 'allow_None', 'instantiate')
         if rng.random() < (0.4 if heavy else 0.15):
             vals = VALUES.get((tname, s)) or VALUES.get(s)
@@ -142,6 +144,8 @@ def gen_explicit(rng, tname):
 
 def type_default(T, slot):
     name = {'label': '_label', 'objects': '_objects'}.get(slot, slot)
+    if slot == 'names' and name not in T._slot_defaults:
+        return lambda p: {}
     return T._slot_defaults[name]
 
 
@@ -158,8 +162,12 @@ def own_initial(param, tname, exp):
         # documented for the Selector family: only an explicit allow_None counts (a None default does not switch it
         # on); without an explicit default the first of the declared objects is the default
         own['allow_None'] = exp.get('allow_None', type_default(T, 'allow_None'))
+        if 'objects' in exp:
+            # objects given as a dictionary: the values are the objects, the keys their names (no names for a list)
+            own['names'] = dict(exp['objects']) if isinstance(exp['objects'], dict) else {}
+            own['objects'] = list(exp['objects'].values()) if isinstance(exp['objects'], dict) else exp['objects']
         if 'default' not in exp and exp.get('objects'):
-            own['default'] = exp['objects'][0]
+            own['default'] = own['objects'][0]
     elif d is None:
         own['allow_None'] = True
     elif 'allow_None' in exp:
@@ -210,6 +218,8 @@ def resolve(param, tname, exp, ancestors):
     for s, fn in deferred:
         if tname == 'Selector' and s == 'objects':
             merged[s] = []
+        elif tname == 'Selector' and s == 'names':
+            merged[s] = {}
         elif tname == 'Selector' and s == 'check_on_set':
             merged[s] = UNDEF       # (filled in below, it depends on the merged objects)
         elif tname in ('Tuple', 'NumericTuple') and s == 'length':
